@@ -24,4 +24,13 @@ pub assume_specification<T: core::cmp::Ord + core::marker::Destruct>[core::cmp::
 pub assume_specification<T: core::cmp::Ord + core::marker::Destruct>[core::cmp::max](a: T, b: T) -> (r: T)
     ensures T::obeys_cmp_spec() ==> r == (if a.cmp_spec(&b) == core::cmp::Ordering::Greater { a } else { b });
 
+// core: equality on byte arrays is element-wise
+pub mod vx_axioms {
+    use vstd::prelude::*;
+    pub broadcast axiom fn axiom_u8_array32_eq(a: [u8; 32], b: [u8; 32])
+        ensures <[u8; 32] as vstd::std_specs::cmp::PartialEqSpec<[u8; 32]>>::obeys_eq_spec(),
+                (#[trigger] vstd::std_specs::cmp::PartialEqSpec::eq_spec(&a, &b)) == (a@ == b@);
+}
+broadcast use vx_axioms::axiom_u8_array32_eq;
+
 } // verus!
